@@ -30,6 +30,7 @@ class Contract:
         self.locals = kw.pop("locals", {})          # local name -> type tag (hints)
         self.cover = kw.pop("cover", True)
         self.total = kw.pop("total", False)         # shape __getattr__: every method name exists
+        self.model = kw.pop("model", None)       # assumed OPERATIONAL model of a library method: Python source executed symbolically
         self.value = kw.pop("value", None)       # the result IS this spec expression (functional contract): no fresh result symbol
         self.optional = kw.pop("optional", False)  # shape method present only as a capability has(obj, name)
         self.field_tags = kw.pop("field_tags", {})  # field name -> tag, overriding the class table for this target only
@@ -47,6 +48,7 @@ class Registry:
         self.functions = {}      # spec function name -> (arg sorts, result sort)
         self.axioms = []         # (name, vars {name: sort}, expr)
         self.link_axioms = set()
+        self.type_aliases = {}       # annotation name -> shape (used for `xs: List["Name"] = []`)
         self.axiom_patterns = {}
         self.inline_closure_args = set()   # targets executed inline (contract not used) when a local closure is passed to them
         self.lemmas = []         # (name, props, vars, assumes, goal)
